@@ -184,6 +184,10 @@ def events_of_log(log, scn=None):
 
 
 def coq_trace(log, scn=None):
+    if scn is not None and scn.get("oracle_only"):
+        # histories with thousands of participants are beyond what the acceptor (unary ids, association
+        # maps) evaluates in reasonable time: they are judged by the python oracle only
+        return "[]"
     return clist("(%s)" % x for x in events_of_log(log, scn))
 
 
@@ -506,6 +510,27 @@ def gen_adopt(rng):
         else:
             parent = b.payload("threading", [["adopt_private_loop", 0, pid], ["step"], ["forever"]])
             h.append(["adopt", 0, parent])
+    # ONE function object adopted several times in quick succession (a worker function started n times):
+    # every adoption is a payload of its own, equal callables or not
+    for _ in range(rng.choice([0, 0, 1, 2])):
+        fl = rng.choice(FLS)
+        grp = "a%d" % rng.randrange(10 ** 6)
+        script = rng.choice([[["step"]], [["step"], ["sleep", 0.3]], [["step"], ["forever"]]])
+        if fl == "threading" and script[-1] == ["forever"]:
+            script = [["beat", 3000, 0.01]]
+        ids = []
+        for _k in range(rng.choice([2, 3, 5, 12])):
+            pid = b.payload(fl, script, rnd_cleanup(rng, fl))
+            b.payloads[str(pid)]["shared"] = grp
+            ids.append(pid)
+        gap = rng.choice([0.0, 0.0, 0.0, 0.002])
+        if rng.random() < 0.5:
+            for pid in ids:
+                h += [["adopt", 0, pid]] + ([["sleep", gap]] if gap else [])
+        else:
+            pfl = rng.choice(FLS)
+            parent = b.payload(pfl, [["adopt", 0, pid] for pid in ids] + rnd_bystander_script(rng, pfl), rnd_cleanup(rng, pfl))
+            h.append(["adopt", 0, parent])
     perturb = None
     if rng.random() < 0.5:
         perturb = rnd_perturbation(rng)
@@ -671,6 +696,9 @@ def gen_lifecycle(rng):
     b = Builder(rng)
     nr = rng.choice([2, 2, 3])
     b.runners = [{"accept_delay": rng.choice([0.02, 0.05, 0.1])} for _ in range(nr + 1)]
+    for r in range(1, nr):
+        if rng.random() < 0.45:
+            b.runners[r] = {"same_as": r - 1}      # the same runtime object is run again after its run has ended
     extra = nr           # instance used only for the rejected concurrent attempt
     h = []
     ends = []
@@ -723,16 +751,97 @@ def gen_lifecycle(rng):
     return b.scenario(timeout=20, linger=0.3)
 
 
-FAMILIES = {"fail": gen_fail, "stop": gen_stop, "adopt": gen_adopt, "exec": gen_exec,
+def gen_churn(rng):
+    """C12/C02/C03: termination arrives while adopters keep adopting: outside threads and payloads
+    *inside* the runtime (a manager coroutine or thread spawning short-lived workers every fraction of
+    a millisecond) call adopt all the way through shutdown / SIGINT / a failure"""
+    b = Builder(rng, accept_delay=rng.choice([0.02, 0.05]))
+    h = [["wait_running", 0]]
+    add_bystanders(b, rng, rng.choice([0, 1, 2, 4]), h)
+
+    def workers(n):
+        out = []
+        for _ in range(n):
+            fl = rng.choice(FLS)
+            r = rng.random()
+            if r < 0.4:
+                script = [["step"]]
+            elif r < 0.7:
+                script = [["step"], ["sleep", rng.choice([0.3, 1.0, 5.0])]]
+            else:
+                script = [["step"], ["forever"]] if fl != "threading" else [["step"], ["sleep", 0.2]]
+            out.append(b.payload(fl, script, rnd_cleanup(rng, fl)))
+        return out
+    inside = rng.sample(FLS, rng.choice([1, 1, 2, 3]))
+    for mfl in inside:
+        ws = workers(rng.choice([40, 80, 120]))
+        mgr = b.payload(mfl, [["adopt_many", 0, ws, rng.choice([0.0, 0.0005, 0.002])], ["forever"]],
+                        rnd_cleanup(rng, mfl))
+        (b.main if rng.random() < 0.5 else h).append(["adopt", 0, mgr])
+    for _ in range(rng.choice([0, 1, 1, 2])):
+        ws = workers(rng.choice([40, 80, 120]))
+        b.helpers.append([["wait_running", 0], ["adopt_many", 0, ws, rng.choice([0.0, 0.0005, 0.002])]])
+    trigger = rng.choice(["shutdown", "shutdown", "shutdown", "sigint", "thread_shutdown", "fail"])
+    h.append(["sleep", rng.choice([0.0, 0.003, 0.01, 0.03, 0.06])])
+    if trigger == "shutdown":
+        h.append(["shutdown", 0])
+    elif trigger == "sigint":
+        h.append(["sigint"])
+    elif trigger == "thread_shutdown":
+        pid = b.payload("threading", [["wait", "go"], ["shutdown", 0]])
+        b.main.append(["adopt", 0, pid])
+        h.append(["set", "go"])
+    else:
+        fl = rng.choice(FLS)
+        pid = b.payload(fl, [["wait", "go"], rnd_failure(rng, allow_base=False)])
+        b.main.append(["adopt", 0, pid])
+        h.append(["set", "go"])
+    b.main.append(["accept", 0])
+    b.helpers.append(h)
+    b.meta = {"family": "churn", "trigger": trigger, "inside": inside}
+    return b.scenario(linger=0.5, timeout=15)
+
+
+STORM = ([100, 200], [60, 120])
+STORM_BIG = ([400, 800], [200, 400])
+
+
+def gen_storm(rng):
+    """C03: very many service instances: a large population defined before start and several outside
+    threads defining hundreds more at full speed while the accept loop is polling (short thread switch
+    interval), then a quiet period: every one of them has been started exactly once"""
+    b = Builder(rng, accept_delay=rng.choice([0.01, 0.02]))
+    b.main.append(["switchinterval", rng.choice([1e-4, 2e-5])])
+    big = rng.random() < 0.5
+    sizes = STORM_BIG if big else STORM
+
+    def many(n):
+        out = []
+        for _ in range(n):
+            fl = rng.choice(FLS)
+            out.append(b.service(fl, [["step"]] if fl == "threading" else rng.choice([[["step"]], [["step"], ["forever"]]])))
+        return out
+    b.main.append(["service_many", many(rng.choice(sizes[0]))])
+    for _ in range(rng.choice([2, 3])):
+        b.helpers.append([["wait_running", 0], ["service_many", many(rng.choice(sizes[1]))], ["set", "made%d" % len(b.helpers)]])
+    h = [["wait_running", 0]] + [["wait", "made%d" % k] for k in range(len(b.helpers))]
+    h += [["sleep", SETTLE + 0.6], ["mark", "settled"], ["shutdown", 0]]
+    b.main.append(["accept", 0])
+    b.helpers.append(h)
+    b.meta = {"family": "storm", "services": b.ns, "oracle_only": big}
+    return b.scenario(linger=0.5, timeout=40, oracle_only=big)
+
+
+FAMILIES = {"storm": gen_storm, "churn": gen_churn, "fail": gen_fail, "stop": gen_stop, "adopt": gen_adopt, "exec": gen_exec,
             "overlap": gen_overlap, "lifecycle": gen_lifecycle}
 
 MIX = {
     "C01": [("fail", 0.8), ("stop", 0.1), ("lifecycle", 0.1)],
-    "C02": [("stop", 0.6), ("fail", 0.3), ("lifecycle", 0.1)],
-    "C03": [("adopt", 0.8), ("stop", 0.1), ("fail", 0.1)],
+    "C02": [("stop", 0.55), ("fail", 0.27), ("lifecycle", 0.08), ("churn", 0.1)],
+    "C03": [("adopt", 0.72), ("stop", 0.07), ("fail", 0.06), ("churn", 0.08), ("storm", 0.07)],
     "C10": [("exec", 0.9), ("overlap", 0.1)],
     "C11": [("overlap", 0.7), ("exec", 0.3)],
-    "C12": [("lifecycle", 0.7), ("stop", 0.3)],
+    "C12": [("lifecycle", 0.55), ("stop", 0.2), ("churn", 0.25)],
 }
 N_QUICK = {"C01": 96, "C02": 96, "C03": 80, "C10": 72, "C11": 48, "C12": 56}
 N_THOROUGH = {"C01": 900, "C02": 900, "C03": 700, "C10": 600, "C11": 400, "C12": 400}
@@ -1404,7 +1513,8 @@ def main(pid, coq_targets, tier=None, seed=None, replay=None, tie_targets=None, 
     chk.coverage.update({
         "evaluations": len(scns),
         "distinct_nontrivial": len(distinct),
-        "traces_validated_against_impl": len(scns) - len(bad),
+        "traces_validated_against_impl": len(scns) - len(bad) - len([x for x in scns if x.get("oracle_only")]),
+        "oracle_only_histories": len([x for x in scns if x.get("oracle_only")]),
         "rule": RULES[pid],
         "samples": [{"scenario": scns[sample_i], "log_head": [[r["t"], r["tid"], r["ev"]] for r in views[sample_i].log][:40]}],
         "events_total": sum(len(v.log) for v in views),
